@@ -417,7 +417,9 @@ def translate():
     lst("mutations", "(string * string * string)",
         ["(%s, %s, %s)" % (cstr(k), cstr(a), cstr(op)) for k, a, op, _ in c["mutations"]],
         "every write to class state `Class.attr <op>` found in the sources")
-    lst("mutation_sites", "string", [cstr("%s.%s %s @ %s" % m) for m in c["mutations"]],
+    import re as _re
+    lst("mutation_sites", "string",
+        [cstr("%s.%s %s @ %s" % (m[0], m[1], m[2], _re.sub(r":\d+\(", "(", m[3]))) for m in c["mutations"]],
         "where those writes are")
     lst("module_objects", "(string * string * string)",
         ["(%s, %s, %s)" % (cstr(m), cstr(n), cstr(k)) for m, n, k in c["module_objects"]],
